@@ -114,15 +114,16 @@ def eqIgnoreAsciiCase (a b : String) : Bool :=
 def nModelListener (target : Node) : Node :=
   nArrow [nBindingIdent (nQuoteIdent "$event")] (nAssignParen target (nQuoteIdent "$event"))
 
-/-- value expression of a plain attribute -/
-def attrValueExpr (v : Node) (st : St) : Node × St :=
-  match v with
-  | .mk .none _ _ => (nBool true, st)
-  | .mk .str (s :: _) _ => (nStr (String.ofList (cleanText s.toList)), st)
-  | .mk .jsxExprContainer _ [e] => (e, st)            -- incl. the empty expression `{}` (Expr::JSXEmpty)
-  | .mk .jsxElement as ks => (.mk .jsxElement as ks, st)
-  | .mk .jsxFragment as ks => (.mk .jsxFragment as ks, st)
-  | v => (v, st.panic "unreachable: JSX attribute value literal must be string")
+/-- value expression of a plain attribute; an element / fragment value has been lowered by the caller (`lowered`) -/
+def attrValueExpr (v : Node) (lowered : Option Node) (st : St) : Node × St :=
+  match lowered with
+  | some e => (e, st)
+  | none =>
+    match v with
+    | .mk .none _ _ => (nBool true, st)
+    | .mk .str (s :: _) _ => (nStr (String.ofList (cleanText s.toList)), st)
+    | .mk .jsxExprContainer _ [e] => (e, st)            -- incl. the empty expression `{}` (Expr::JSXEmpty)
+    | v => (v, st.panic "unreachable: JSX attribute value literal must be string")
 
 def vmodelStep (o : Opts) (isComponent : Bool) (argument transformed modifiers : Option Node) (value : Node)
     (acc : AttrAcc) : AttrAcc :=
@@ -182,7 +183,7 @@ def plainAttrFlags (isComponent : Bool) (attrName : String) (valueN : Node) (isT
   else acc
 
 /-- one step of the fold in `transform_attrs` -/
-def attrStep (o : Opts) (isComponent : Bool) (a : Node) (acc : AttrAcc) (st : St) : AttrAcc × St :=
+def attrStep (o : Opts) (isComponent : Bool) (a : Node) (lowered : Option Node) (acc : AttrAcc) (st : St) : AttrAcc × St :=
   match a with
   | .mk .jsxAttr _ [nameN, valueN] =>
     let name := attrNameOf nameN
@@ -204,7 +205,7 @@ def attrStep (o : Opts) (isComponent : Bool) (a : Node) (acc : AttrAcc) (st : St
         | .plain s => s
         | .ns ns n => ns ++ ":" ++ n
         | .bad => ""
-      let (attrValue, st) := attrValueExpr valueN st
+      let (attrValue, st) := attrValueExpr valueN lowered st
       let isTransformOn := o.transformOn && (attrName == "on" || attrName == "nativeOn")
       let acc := plainAttrFlags isComponent attrName valueN isTransformOn acc
       if isTransformOn then
@@ -238,12 +239,6 @@ def attrStep (o : Opts) (isComponent : Bool) (a : Node) (acc : AttrAcc) (st : St
       else ({ acc with props := acc.props ++ [nSpreadElement e] }, st)
   | _ => (acc, st.panic "ill-formed attribute")
 
-def attrFold (o : Opts) (isComponent : Bool) : List Node → AttrAcc → St → AttrAcc × St
-  | [], acc, st => (acc, st)
-  | a :: rest, acc, st =>
-    let (acc, st) := attrStep o isComponent a acc st
-    attrFold o isComponent rest acc st
-
 /-- the props expression assembled after the fold -/
 def assembleProps (o : Opts) (props mergeArgs : List Node) (st : St) : Node × St :=
   if !mergeArgs.isEmpty then
@@ -270,15 +265,5 @@ def patchFlagsOf (acc : AttrAcc) : Nat :=
       (if acc.hasClass then PF_CLASS else 0) + (if acc.hasStyle then PF_STYLE else 0)
         + (if !acc.dynamicProps.isEmpty then PF_PROPS else 0) + (if acc.hasHydration then PF_HYDRATE_EVENTS else 0)
   if (f == 0 || f == PF_HYDRATE_EVENTS) && (acc.hasRef || !acc.directives.isEmpty) then f + PF_NEED_PATCH else f
-
-/-- `transform_attrs(attrs, is_component, directives)` -/
-def transformAttrs (o : Opts) (attrs : List Node) (isComponent : Bool) (st : St) : AttrsResult × St :=
-  if attrs.isEmpty then
-    ({ attrs := nNull, patchFlags := 0, dynamicProps := none, slots := none, directives := [] }, st)
-  else
-    let (acc, st) := attrFold o isComponent attrs {} st
-    let (expr, st) := assembleProps o acc.props acc.mergeArgs st
-    ({ attrs := expr, patchFlags := patchFlagsOf acc, dynamicProps := some acc.dynamicProps,
-       slots := acc.slots, directives := acc.directives }, st)
 
 end VueJsx
